@@ -135,12 +135,18 @@ async fn run(
     let start = Instant::now();
     {
         let conn = agent.pool().read().await?;
-        // check __corro_seq_bookkeeping for any actor ids that we only have partial changes for.
+        // check __corro_seq_bookkeeping for any actor ids that we only have partial changes for,
+        // and the gaps / db versions tables for actors we only know through versions that were
+        // cleared or lost every conflict (those never get a crsql_site_id ordinal).
         let actor_ids: Vec<ActorId> = conn
             .prepare(
                 "SELECT site_id FROM crsql_site_id WHERE ordinal > 0
                         UNION
-                    SELECT distinct site_id FROM __corro_seq_bookkeeping",
+                    SELECT distinct site_id FROM __corro_seq_bookkeeping
+                        UNION
+                    SELECT distinct actor_id FROM __corro_bookkeeping_gaps
+                        UNION
+                    SELECT site_id FROM crsql_db_versions",
             )?
             .query_map([], |row| row.get(0))
             .and_then(|rows| rows.collect::<rusqlite::Result<Vec<_>>>())?;
